@@ -161,7 +161,9 @@ class ExecutionContext(AbstractContext):
         key_hash = self.key.public_key_hash()
         mempool = self.shell.mempool.pending_operations()
 
-        for operation in chain(mempool.get('applied', []), mempool.get('unprocessed', [])):
+        # NOTE: current nodes list pending operations under `validated` (formerly `applied`); a node serves one or the other
+        pending = chain(mempool.get('applied', []), mempool.get('validated', []), mempool.get('unprocessed', []))
+        for operation in pending:
             if isinstance(operation, list):
                 operation = operation[1]
             for content in operation.get('contents', []):
